@@ -1152,6 +1152,12 @@ func (fv *FV) callByContract(st *State, c *Contract, fn *types.Func, sig *types.
 	}
 	pre := st.clone()
 	env := &SpecEnv{fv: fv, names: names, cur: st, old: pre, pkg: cpkg, tsub: tsub}
+	// ghost results of the callee (defined by `loop N let` or as locals at
+	// exit inside it) are existential for the caller: unconstrained values
+	for _, g := range c.Ghost {
+		gt := env.resolveType(g.Type)
+		names[g.Name] = fv.freshVal("ghost_"+g.Name, gt)
+	}
 	var pos token.Pos
 	if call != nil {
 		pos = call.Pos()
